@@ -16,7 +16,7 @@ import (
 // Expressions: lit var bin un call mcall index slice field len conv minmax append slit mlit stlit recover none
 // Statements:  define vardecl assign incdec tassign mret mapok if for3 forc forever range switch case break continue
 //
-//	return defer deferlit panic expr block delete
+//	return defer deferlit panic expr block delete label goto
 type Node struct {
 	K string  `json:"k"`
 	S string  `json:"s,omitempty"` // identifier / operator / string literal / label
@@ -178,7 +178,7 @@ func expr(n *Node) string {
 	case "minmax":
 		return n.S + "(" + exprList(n.A) + ")"
 	case "append":
-		return "append(" + exprList(n.A) + ")"
+		return "append(" + exprList(n.A) + n.S + ")" // S is "..." for append(s, t...)
 	case "slit":
 		return n.T + "{" + exprList(n.A) + "}"
 	case "mlit":
@@ -421,6 +421,12 @@ func (p *printer) stmt(n *Node) {
 		p.line("delete(%s, %s)", expr(n.A[0]), expr(n.A[1]))
 	case "use":
 		p.use(n.S)
+	case "label":
+		p.ind--
+		p.line("%s:", n.S)
+		p.ind++
+	case "goto":
+		p.line("goto %s", n.S)
 	case "seq":
 		for _, s := range n.B {
 			p.stmt(s)
